@@ -664,9 +664,9 @@ class BufferByteArray(XBuffer):
 
     def update_from_native(self, offset, source, source_offset, nbytes):
         """Copy data from native buffer into self.buffer starting from offset"""
-        self.buffer[offset : offset + nbytes] = source[
-            source_offset : source_offset + nbytes
-        ]
+        self.buffer[offset : offset + nbytes] = bytearray(
+            source[source_offset : source_offset + nbytes]
+        )
 
     def to_native(self, offset, nbytes):
         """return native data with content at from offset and nbytes"""
